@@ -147,7 +147,10 @@ def monitorsUpd (p : Parsed) (applied : Bool) (v : String) (pre : Store) (preFin
   let c15 := if postFin != preFin && !(p.fin.isSome && postFin == id8 p.finRoot) then ["adopted_finalized_header_is_the_updates"] else []
   let c16 := if postOpt != preOpt && !(postOpt == id8 p.attRoot || (p.fin.isSome && postOpt == id8 p.finRoot)) then ["adopted_optimistic_header_is_the_updates"] else []
   let c17 := if (v.splitOn "panic").length > 1 then ["no_panic"] else []
-  c1 ++ c2 ++ c3 ++ c4 ++ c5 ++ c6 ++ c7 ++ c8 ++ c9 ++ c10 ++ c11 ++ c12 ++ c13 ++ c14 ++ c15 ++ c16 ++ c17
+  -- a rotation uses the stored next committee up: what was held for period sp+1 is not thereby held for sp+2 (only a
+  -- next committee supplied by this very update may be stored after a rotation)
+  let c18 := if post.cur != pre.cur && pre.next.isSome && post.next == pre.next && u.nextComm != pre.next then ["rotation_consumes_next_committee"] else []
+  c18 ++ c1 ++ c2 ++ c3 ++ c4 ++ c5 ++ c6 ++ c7 ++ c8 ++ c9 ++ c10 ++ c11 ++ c12 ++ c13 ++ c14 ++ c15 ++ c16 ++ c17
 
 def bitsClass (n : Nat) : String :=
   if n == 0 then "bits=0" else if n * 3 < 512 * 2 then (if n ≤ 8 then "bits=1..8" else "bits=9..341") else "bits>=342"
